@@ -392,8 +392,10 @@ class LSMTree(Entity):
                     return None
                 return value
 
-        # Check each level, L0 first (most recent)
-        for level in self._levels:
+        # Check each level, L0 first (most recent). Iterate over a snapshot of
+        # the level lists: a flush or compaction may mutate them while this
+        # read is suspended on I/O below.
+        for level in [list(level) for level in self._levels]:
             # L0: check all SSTables (may have overlapping key ranges)
             for sstable in reversed(level):
                 self._total_sstables_checked += 1
@@ -477,8 +479,10 @@ class LSMTree(Entity):
                 if start_key <= k < end_key and k not in merged:
                     merged[k] = v
 
-        # Collect from SSTables (newer levels first)
-        for level in self._levels:
+        # Collect from SSTables (newer levels first). Iterate over a snapshot
+        # of the level lists: a flush or compaction may mutate them while
+        # this scan is suspended on I/O below.
+        for level in [list(level) for level in self._levels]:
             for sstable in reversed(level):
                 page_reads = sstable.page_reads_for_scan(start_key, end_key)
                 if page_reads > 0:
